@@ -21,6 +21,7 @@ import nexval_gen as G
 import nexval_errors as T
 import nexval_walk as W
 import nexval_holder as H
+import c15_tzhist as Z
 
 logging.getLogger("nintendo.nex.common").setLevel(logging.ERROR)   # "version is higher than expected" warnings of Structure.decode
 
@@ -650,7 +651,7 @@ def replay(ctx, path):
 # ------------------------------------------------------------------ run
 THEOREMS = {
     "w": ["Nx.C15.string_roundtrip", "Nx.C15.list_roundtrip", "Nx.C15.map_roundtrip", "Nx.C15.variant_roundtrip"],
-    "dt": ["Nx.C15.datetime_make_fields", "Nx.C15.datetime_unix_partial"],
+    "dt": ["Nx.C15.datetime_make_fields", "Nx.C15.datetime_unix_partial", "Nx.C15.datetime_unix_zone_history", "Nx.C15.local_to_seconds_inverts_local"],
     "url": ["Nx.C15.stationurl_parse_repr", "Nx.C15.stationurl_stream_roundtrip", "Nx.C15.stationurl_walk_observations", "Nx.C15.stationurl_walk_roundtrip"],
     "seq": ["Nx.C15.stream_sequence_roundtrip", "Nx.C15.stream_sequence_concat"],
     "poly": ["Nx.C15.holder_poly_roundtrip", "Nx.C15.holder_poly_roundtrip_any_order", "Nx.C15.holder_registry_lookup"],
@@ -675,8 +676,14 @@ def run(ctx):
                 "StreamOut.anydata / StreamIn.anydata alone, in lists and sequences of mixed holders and nested in holder fields: announced name = own class name, same class back, all fields equal, "
                 "exact consumption, identical re-encoding; application-defined hierarchies (random class trees up to 6 classes, any subset registered in any order, fixed Shape<-Circle<-Disc in 8 orders) "
                 "run on the real code and on the model HolderPoly.wHolder/rHolder (driver ops poly.w / poly.r). "
+                "Time zones with a history (harness/c15_tzhist.py): 24 zones whose rules changed (DST abolished / offset moved / negative or half-hour DST / date-line jumps / "
+                "sub-minute offsets) and controls, plus a seed-dependent sample of all zones of the tz database (all in thorough), each in a fresh interpreter (TZ in the environment, "
+                "or tzset before / after importing the library): every rule change 1970..2100 with the seconds around it, the edges of the skipped / repeated hour, random instants in every "
+                "interval between changes, a stride walk, far-future years, wall-clock fields around each change; oracle zoneinfo: fromtimestamp(t) = local time of t, "
+                "make(fields).timestamp() = t when the local time occurs once (either instant and the same fields when it occurs twice); replayed through dt.from / dt.ts with the offset in force and through dt.zfrom / dt.zts with the zone's table of rule changes (model of CPython's local_to_seconds, incl. skipped / repeated local times). "
                 "distinct non-trivial = distinct lines whose model result is not a plain rejection of random bytes")
     ctx.assumptions.append("CPython datetime / process time zone (glibc TZ rules for fixed offsets) behave as modelled; compared, not proved")
+    ctx.assumptions.append("zoneinfo's reading of the system tz database is the oracle for zones with a history (independent of glibc localtime/mktime used by the code under test)")
     ctx.assumptions.append("int(str) is modelled for ASCII digits only; non-ASCII decimal digits and the 4300-digit limit are outside the model")
     B = Batch()
     entries = check_error_table(ctx, B)
@@ -685,6 +692,7 @@ def run(ctx):
     H.run(ctx, B, quick)              # first: imports every module of nintendo.nex, so the sections below see the whole registry
     structure_cases(ctx, B, quick)
     datetime_cases(ctx, B, quick)
+    Z.run(ctx, B, quick)              # zones whose rules changed over the years, each in a fresh interpreter
     url_cases(ctx, B, quick)
     W.run(ctx, B, entries, quick)
     B.add("errtab.check", "ok %s %d - -" % (G.show_bool(bool(entries) and not ctx.extra.get("error_table_obligations_failed")), len(entries)), ("errtab.check", None))
